@@ -308,6 +308,7 @@ class Interp:
         self.paths = 0
         self.seq = 0
         self.depth = 0
+        self.loops: dict[int, list] = {}  # id(For node) -> [(iterable AV, element AV, entry State clone)]
 
     # ------------------------------------------------------------------ public API
     def run_function(self, fi: FuncInfo, args: dict[str, AV] | None = None, state: State | None = None) -> list[Outcome]:
@@ -639,6 +640,7 @@ class Interp:
         return out
 
     def loop(self, n: ast.For, it: AV, s: State) -> list[State]:
+        self.loops.setdefault(id(n), []).append((it, self.elem_of(it, n), s.clone()))
         # closed literal collections are unrolled
         if isinstance(it, ListV) and not it.open and len(it.items) <= 12:
             states = [s]
@@ -1754,6 +1756,8 @@ def mkstr(parts: list) -> AV:
     for p in parts:
         if isinstance(p, Const) and isinstance(p.v, str):
             p = p.v
+        elif isinstance(p, Const) and (p.v is None or isinstance(p.v, (bool, int, float))):
+            p = str(p.v)  # f"{x}" == str(x) for these builtin types
         if isinstance(p, StrT):
             for q in p.parts:
                 if isinstance(q, str) and out and isinstance(out[-1], str):
